@@ -225,8 +225,24 @@ def one_builder(case, rng):
     tabs = simcases.Tables(case, labels)
     out = []
     weights = case["bweights"]
+    tabs.calls = []
     r = run_under(SimRandom(SEEDED, seed=3), EoN.nonMarkov_directed_percolate_network_with_timing, G,
                   tabs.sir_trans_time, tabs.sir_rec_time, weights=weights)
+    if r.status == "done":
+        # duration(u) is one value per node, delay(u,v) one per ordered neighbour pair: (possibly random)
+        # user rules must be asked exactly once each
+        nrec, ntr = {}, {}
+        for c in tabs.calls:
+            if c[0] == "rec":
+                nrec[c[1]] = nrec.get(c[1], 0) + 1
+            elif c[0] == "trans":
+                ntr[(c[1], c[2])] = ntr.get((c[1], c[2]), 0) + 1
+        badn = [u for u in labels if nrec.get(u, 0) != 1]
+        bade = [(u, v) for u in labels for v in G.neighbors(u) if ntr.get((u, v), 0) != 1]
+        if badn or bade:
+            return [V("rule_calls", "nonMarkov_directed_percolate_network_with_timing/rules-not-asked-once",
+                      "weights=%r: rec_time_fxn calls per node %r, trans_time_fxn calls per pair %r (expected exactly one each)"
+                      % (weights, {repr(u): nrec.get(u, 0) for u in badn[:3]}, {repr(e): ntr.get(e, 0) for e in bade[:3]}), case)]
     if r.status != "exc" and r.status != "done":
         return []        # not under the harness's control (seam limit): never a verdict
     if r.status != "done":
